@@ -20,6 +20,8 @@ def gen_occurs(rng):
     m = rng.random()
     if m < 0.45:
         return None, None
+    if m < 0.5:
+        return 0, 0                      # prohibited particle
     mn = rng.choice([None, 0, 1, 2, 3])
     mx = rng.choice([None, 1, 2, 3, 'unbounded'])
     if isinstance(mx, int) and (mn or 1) > mx:
